@@ -531,6 +531,7 @@ class FnWeave:
         self.iters = {}
         self.r11 = None     # None | {'vec': type or None}
         self.r12 = None     # concrete return type replacing an `impl Trait` return type
+        self.r13 = False    # `for` loops over std iterators -> loop { match it.next() {..} }
 
 
 def weave_fn(text, w, rules, vacuity=False, name='?'):
@@ -836,6 +837,9 @@ def build_unit(unit_path, vacuity=False, degrade=None):
                         # R11: iterator adaptor chains -> their defining loops (vx/r11.py)
                         mm = re.match(r'r11\s+vec=(.+)$', d2)
                         w.r11 = {'vec': mm.group(1).strip() if mm else None}
+                    elif d2 == 'r13':
+                        # R13: `for PAT in EXPR BODY` -> its definition `loop { match it.next() { None => break, Some(PAT) => BODY } }`
+                        w.r13 = True
                     elif d2.startswith('r12 '):
                         # R12: `-> impl Trait<..>` return type -> the concrete type the body returns (type annotation only)
                         w.r12 = d2[4:].strip()
@@ -892,6 +896,13 @@ def build_unit(unit_path, vacuity=False, degrade=None):
                 if 'external_body' not in w.attr:
                     w.attr = (w.attr.rstrip('\n') + '\n' if w.attr.strip() else '') + '#[verifier::external_body]\n'
                 degraded.append({'function': f + ' :: ' + fname, 'reason': why})
+            if w.r13 and not w.opaque:
+                try:
+                    txt, notes13 = r11.desugar_for(txt)
+                    for nt in notes13:
+                        rules.hit('R13', 'fn %s: %s' % (fname, nt))
+                except (r11.R11Error, ScanError) as e:
+                    _degrade('lost anchor: r13: %s' % e)
             if w.r11 is not None and not w.opaque:
                 try:
                     txt, notes11 = r11.desugar(txt, w.r11.get('vec'))
